@@ -20,6 +20,8 @@ struct SinkCtx {
     sched: Vec<i64>, // >0 accept at most k, 0 = EINTR
     i: usize,
     fail_armed: bool,
+    /// the failing call also reports the whole buffer as written (and stores nothing)
+    fail_with_count: bool,
     fired: bool,
     calls: u64,
 }
@@ -30,6 +32,9 @@ extern "C" fn write_cb(buf: *const u8, len: u32, ctx: *mut c_void, written: *mut
     if c.fail_armed {
         c.fail_armed = false;
         c.fired = true;
+        if c.fail_with_count {
+            unsafe { *written = len };
+        }
         return 5; // EIO
     }
     let k = if c.sched.is_empty() { i64::from(len) } else { let k = c.sched[c.i % c.sched.len()]; c.i += 1; k };
@@ -80,7 +85,7 @@ extern "C" fn file_cb(ctx: *mut c_void, name: *const u8, len: usize, fw: *mut Fi
         return 1;
     }
     let sched = c.sched.clone();
-    let sink = c.files.entry(n).or_insert_with(|| Box::new(SinkCtx { data: vec![], sched, i: 0, fail_armed: false, fired: false, calls: 0 }));
+    let sink = c.files.entry(n).or_insert_with(|| Box::new(SinkCtx { data: vec![], sched, i: 0, fail_armed: false, fail_with_count: false, fired: false, calls: 0 }));
     let p: *mut SinkCtx = &mut **sink;
     // FileWriter is #[repr(C)] { write_callback, flush_callback, context }: three pointer-sized fields in that order
     unsafe {
@@ -121,7 +126,7 @@ fn run_one(b: &Value) -> (Option<Value>, Vec<Value>) {
         der.extend(keys[0].1.as_bytes());
         CString::new(pem_of("PUBLIC KEY", &der)).unwrap()
     };
-    let mut sink = Box::new(SinkCtx { data: vec![], sched: sched_of(b["sched"].as_str().unwrap()), i: 0, fail_armed: false, fired: false, calls: 0 });
+    let mut sink = Box::new(SinkCtx { data: vec![], sched: sched_of(b["sched"].as_str().unwrap()), i: 0, fail_armed: false, fail_with_count: false, fired: false, calls: 0 });
     let ctx: *mut c_void = (&mut *sink as *mut SinkCtx).cast();
     let mut cfg: MLAConfigHandle = null_mut();
     let mut ar: MLAArchiveHandle = null_mut();
@@ -137,8 +142,9 @@ fn run_one(b: &Value) -> (Option<Value>, Vec<Value>) {
         // a NULL handle first (must be refused and change nothing), then the proper call
         let rounds: Vec<bool> = if fault_kind == "null" && fault_k == i + 1 { vec![true, false] } else { vec![false] };
         for null_round in rounds {
-            if fault_kind == "cbfail" && fault_k == i + 1 {
+            if (fault_kind == "cbfail" || fault_kind == "cbfail_count") && fault_k == i + 1 {
                 sink.fail_armed = true;
+                sink.fail_with_count = fault_kind == "cbfail_count";
             }
             let fired0 = sink.fired;
             let st = match op {
